@@ -346,10 +346,21 @@ def main(path, default_bg, mode, premium):
                             if isinstance(decl, Declaration) and decl.name.startswith(
                                 "--"
                             ):
+                                held = variables.get(decl.name)
+                                if (
+                                    held is not None
+                                    and selector == "html"
+                                    and held["selector"] == ":root"
+                                ):
+                                    # both selectors match the root element and ":root"
+                                    # outranks "html" whatever the source order: the
+                                    # definition in force is the one already held
+                                    continue
                                 variables[decl.name] = {
                                     "decl": decl,
                                     "value": tinycss2.serialize(decl.value).strip(),
                                     "rule": rule,  # Keep ref to rule
+                                    "selector": selector,
                                 }
 
             process_nodes_recursive(
